@@ -408,6 +408,10 @@ func runProperty(w *World, lib *SpecLib, p *Prover, id, tier string) *propRun {
 				failing[a.Results[0].Ob.Func] = a.Key
 			}
 		}
+		for _, u := range run.unsupported {
+			// a function the executor cannot run has no proof at all
+			failing[strings.SplitN(u, ": ", 2)[0]] = "the function is outside the supported subset (" + u + ")"
+		}
 		for _, o := range run.ownObs {
 			if o.OK && strings.Contains(o.Key, ".effects[map range #") && strings.HasPrefix(o.Why, "covered by the function") {
 				fn := o.Key[:strings.Index(o.Key, ".effects[")]
